@@ -357,6 +357,10 @@ Proof.
   - intros r s p. apply visit_ext. intros k. apply deps_get_perm; assumption.
 Qed.
 
+Theorem DetachCycles_over_perm cs m :
+  Permutation m (dependencies cs) -> DetachCycles_over m cs = DetachCycles cs.
+Proof. intros P. unfold DetachCycles_over, DetachCycles. rewrite (sortMap_perm cs m P). reflexivity. Qed.
+
 Theorem CheckChangesScope_names_perm (names names' : list bytes) :
   Permutation names names' -> NoDup names ->
   CheckChangesScope_names names = CheckChangesScope_names names'.
